@@ -1,6 +1,7 @@
 //! C17 — memory use is bounded by the configured tag size limit, whatever the input claims.
 
 use ebml_iterable::specs::Master;
+use ebml_iterable::error::TagIteratorError;
 use ebml_iterable::TagIterator;
 
 use crate::allocstat;
@@ -35,12 +36,24 @@ pub struct Measured {
     pub max_request: usize,
 }
 
+/// the error's kind and numbers without a single allocation inside the measuring window: `norm_err` Debug-formats the
+/// problem of a CorruptedTagData (a FromUtf8Error holds the whole payload: ~6 bytes of text per payload byte), which the
+/// counting allocator would book as the iterator's (false alarm 9 in DESIGN.md section 14)
+fn lean_err(e: TagIteratorError) -> ErrK {
+    match e {
+        TagIteratorError::CorruptedTagData { tag_id, .. } => ErrK::TagData { tag_id, problem: String::new() },
+        TagIteratorError::UnexpectedEOF { tag_start, tag_id, tag_size, .. } => ErrK::Eof { tag_start, tag_id, tag_size, partial: None },
+        other => norm_err(other),
+    }
+}
+
 /// lean driver: no conversion of items (that would allocate in the harness), items dropped immediately
 pub fn measure<T: Spec>(bytes: &[u8], cfg: &ReadCfg, stop_at_error: bool) -> Measured {
     let start = allocstat::window_start();
     let mut src = ScriptRead::new(bytes, vec![]);
     let mut items = 0usize;
     let mut err = None;
+    let mut raw_err = None;
     let r = guarded(|| {
         let buffered: Vec<T> = cfg.buffered.iter().filter_map(|id| T::get_master_tag(*id, Master::Start)).collect();
         let mut it = match cfg.capacity {
@@ -66,12 +79,17 @@ pub fn measure<T: Spec>(bytes: &[u8], cfg: &ReadCfg, stop_at_error: bool) -> Mea
                     }
                 }
                 Some(Err(e)) => {
-                    let k = norm_err(e);
+                    errors += 1;
+                    if stop_at_error {
+                        // normalised after the window is closed
+                        raw_err = Some(e);
+                        break;
+                    }
+                    let k = lean_err(e);
                     if err.is_none() {
                         err = Some(k);
                     }
-                    errors += 1;
-                    if stop_at_error || errors > 3 {
+                    if errors > 3 {
                         break;
                     }
                 }
@@ -79,6 +97,9 @@ pub fn measure<T: Spec>(bytes: &[u8], cfg: &ReadCfg, stop_at_error: bool) -> Mea
         }
     });
     let (peak, largest) = allocstat::window_peak(start);
+    if let Some(e) = raw_err {
+        err = Some(norm_err(e));
+    }
     Measured { items, err, panic: r.err(), peak, largest, max_request: src.max_request }
 }
 
